@@ -99,7 +99,7 @@ struct Inner
 };
 
 // members of Zoo in Serialize order (bit positions of Zoo::saveMask)
-static const char* const kZooOrder[] = { "base", "color", "emap", "dur", "durMs", "tp", "tpMs", "vec", "vbool", "deq", "lst", "fwd", "arr", "val", "que", "stk", "pq", "set", "mset", "uset", "umset", "map", "imap", "mmap", "umap", "ummap", "mapOnlyExist", "mapUpdate", "opt", "optStr", "uptr", "sptr", "uobj", "bits", "tup", "pr", "atom", "s", "s16", "s32", "ws", "vv", "mv", "vo", "vobj", "bin", "rows" };
+static const char* const kZooOrder[] = { "base", "color", "emap", "dur", "durMs", "tp", "tpMs", "vec", "vbool", "deq", "lst", "fwd", "arr", "val", "que", "stk", "pq", "set", "mset", "uset", "umset", "map", "imap", "mmap", "umap", "ummap", "mapOnlyExist", "mapUpdate", "mapUpdateOpt", "opt", "optStr", "uptr", "sptr", "uobj", "bits", "tup", "pr", "atom", "s", "s16", "s32", "ws", "vv", "mv", "vo", "vobj", "bin", "rows" };
 
 struct ZooBase
 {
@@ -156,6 +156,12 @@ struct Zoo : ZooBase
 	std::vector<Inner> vobj;
 	std::vector<unsigned char> bin;
 	std::vector<Row> rows;   // the CSV root; also saved as a member in tree archives
+	// the CSV root can be any sequence container of rows (csvRoot: 0 vector, 1 list, 2 deque, 3 forward_list)
+	int csvRoot = 0;
+	std::list<Row> rowsList;
+	std::deque<Row> rowsDeque;
+	std::forward_list<Row> rowsFwd;
+	std::map<std::string, std::optional<int32_t>> mapUpdateOpt;   // UpdateKeys with values that can be null
 	Color color = Color::Red;
 	std::map<Color, int32_t> emap;
 	std::chrono::seconds dur{};
@@ -208,6 +214,8 @@ struct Zoo : ZooBase
 			F(KeyValue("mapOnlyExist", r1));
 			MapRef<std::map<std::string, int32_t>> r2{ mapUpdate, useLoadModes ? BitSerializer::MapLoadMode::UpdateKeys : BitSerializer::MapLoadMode::Clean };
 			F(KeyValue("mapUpdate", r2));
+			MapRef<std::map<std::string, std::optional<int32_t>>> r3{ mapUpdateOpt, useLoadModes ? BitSerializer::MapLoadMode::UpdateKeys : BitSerializer::MapLoadMode::Clean };
+			F(KeyValue("mapUpdateOpt", r3));
 		}
 		F(KeyValue("opt", opt));
 		F(KeyValue("optStr", optStr));
